@@ -1,9 +1,11 @@
 package core
 
 import (
+	"go/ast"
 	"go/constant"
 	"go/token"
 	"go/types"
+	"sync"
 
 	"golang.org/x/tools/go/ssa"
 )
@@ -243,9 +245,9 @@ type SelState struct {
 
 // SelectInfo decomposes an ssa.Select.
 type SelectInfo struct {
-	Sel     *ssa.Select
-	States  []*SelState
-	Default *ssa.BasicBlock // non-blocking only
+	Sel         *ssa.Select
+	States      []*SelState
+	Default     *ssa.BasicBlock // non-blocking only
 	DefaultFrom *ssa.BasicBlock
 }
 
@@ -333,15 +335,20 @@ func Search(from ssa.Instruction, startBlock *ssa.BasicBlock, visit func(ssa.Ins
 	type item struct {
 		b    *ssa.BasicBlock
 		i    int
+		only int // -1: every successor; k: only successor k is feasible given the edge this block was entered by
 		path []*ssa.BasicBlock
 	}
+	type key struct {
+		b    *ssa.BasicBlock
+		only int
+	}
 	var stack []item
-	seen := map[*ssa.BasicBlock]bool{}
+	seen := map[key]bool{}
 	if from != nil {
-		stack = append(stack, item{from.Block(), InstrIndex(from) + 1, []*ssa.BasicBlock{from.Block()}})
+		stack = append(stack, item{from.Block(), InstrIndex(from) + 1, -1, []*ssa.BasicBlock{from.Block()}})
 	} else {
-		stack = append(stack, item{startBlock, 0, []*ssa.BasicBlock{startBlock}})
-		seen[startBlock] = true
+		stack = append(stack, item{startBlock, 0, -1, []*ssa.BasicBlock{startBlock}})
+		seen[key{startBlock, -1}] = true
 	}
 	for len(stack) > 0 {
 		it := stack[len(stack)-1]
@@ -361,19 +368,126 @@ func Search(from ssa.Instruction, startBlock *ssa.BasicBlock, visit func(ssa.Ins
 		if blocked {
 			continue
 		}
-		for _, s := range it.b.Succs {
+		for si, s := range it.b.Succs {
+			if it.only >= 0 && si != it.only {
+				continue // infeasible: the branch condition is a φ whose value on the entering edge is a constant
+			}
 			if edgeOK != nil && !edgeOK(it.b, s) {
 				continue
 			}
-			if seen[s] {
+			only := phiDecidedSucc(s, it.b)
+			if seen[key{s, -1}] || seen[key{s, only}] {
 				continue
 			}
-			seen[s] = true
+			seen[key{s, only}] = true
 			np := append(append([]*ssa.BasicBlock{}, it.path...), s)
-			stack = append(stack, item{s, 0, np})
+			stack = append(stack, item{s, 0, only, np})
 		}
 	}
 	return nil, nil
+}
+
+// phiDecidedSucc: block b ends in an If whose condition, given that b was entered from pred, is a constant
+// (a φ of b with a constant on that edge, possibly negated or compared with a constant / nil). Returns the
+// index of the only feasible successor, or -1. This is the residue of an inlined `return x, true` /
+// `return nil, false` helper and of `ok := false; if c { ok = true }; if ok {...}` code.
+func phiDecidedSucc(b, pred *ssa.BasicBlock) int {
+	if len(b.Instrs) == 0 {
+		return -1
+	}
+	ifi, ok := b.Instrs[len(b.Instrs)-1].(*ssa.If)
+	if !ok {
+		return -1
+	}
+	pi := -1
+	for i, p := range b.Preds {
+		if p == pred {
+			if pi >= 0 {
+				return -1 // entered by two edges from the same block
+			}
+			pi = i
+		}
+	}
+	if pi < 0 {
+		return -1
+	}
+	v, known := evalOnEdge(ifi.Cond, b, pi, 0)
+	if !known {
+		return -1
+	}
+	if v {
+		return 0
+	}
+	return 1
+}
+
+// constOnEdge: the value of v when block b is entered by predecessor #pi, if that is a constant or a
+// value that is certainly not nil.
+func constOnEdge(v ssa.Value, b *ssa.BasicBlock, pi int) (c *ssa.Const, nonNil bool, ok bool) {
+	if phi, isPhi := v.(*ssa.Phi); isPhi && phi.Block() == b && pi < len(phi.Edges) {
+		v = phi.Edges[pi]
+	} else if _, isPhi := v.(*ssa.Phi); isPhi {
+		return nil, false, false
+	}
+	switch x := v.(type) {
+	case *ssa.Const:
+		return x, false, true
+	case *ssa.MakeInterface, *ssa.Alloc, *ssa.MakeSlice, *ssa.MakeMap, *ssa.MakeChan, *ssa.MakeClosure, *ssa.Function:
+		return nil, true, true
+	}
+	return nil, false, false
+}
+
+func evalOnEdge(v ssa.Value, b *ssa.BasicBlock, pi int, d int) (val bool, known bool) {
+	if d > 4 {
+		return false, false
+	}
+	switch x := v.(type) {
+	case *ssa.Const:
+		if x.Value != nil && x.Value.Kind() == constant.Bool {
+			return constant.BoolVal(x.Value), true
+		}
+	case *ssa.Phi:
+		if x.Block() == b && pi < len(x.Edges) {
+			if c, ok := x.Edges[pi].(*ssa.Const); ok && c.Value != nil && c.Value.Kind() == constant.Bool {
+				return constant.BoolVal(c.Value), true
+			}
+		}
+	case *ssa.UnOp:
+		if x.Op == token.NOT && x.Block() == b {
+			if r, ok := evalOnEdge(x.X, b, pi, d+1); ok {
+				return !r, true
+			}
+		}
+	case *ssa.BinOp:
+		if x.Block() != b || (x.Op != token.EQL && x.Op != token.NEQ) {
+			return false, false
+		}
+		cx, nnx, okx := constOnEdge(x.X, b, pi)
+		cy, nny, oky := constOnEdge(x.Y, b, pi)
+		if !okx || !oky {
+			return false, false
+		}
+		eq, decided := false, false
+		switch {
+		case cx != nil && cy != nil:
+			if cx.IsNil() || cy.IsNil() {
+				eq, decided = cx.IsNil() && cy.IsNil(), true
+			} else if cx.Value != nil && cy.Value != nil && cx.Value.Kind() == cy.Value.Kind() {
+				eq, decided = constant.Compare(cx.Value, token.EQL, cy.Value), true
+			}
+		case nnx && cy != nil && cy.IsNil(), nny && cx != nil && cx.IsNil():
+			eq, decided = false, true
+		}
+		if !decided {
+			return false, false
+		}
+		if x.Op == token.NEQ {
+			return !eq, true
+		}
+		return eq, true
+	}
+	return false, false
 }
 
 // PathString renders a block path as file:line list.
@@ -429,21 +543,129 @@ func AllInstrs(fn *ssa.Function, f func(ssa.Instruction)) {
 	}
 }
 
-// WithAnon returns fn and all functions nested in it (closures), recursively.
+// deferOwner / deferredBy: an unexported named function whose only use in the repository is one static
+// `defer f(...)` is, for every structural purpose, the deferred closure of that function written as a
+// method (`defer c.senderFailed()` instead of `defer func() { ... }()`); recover() works in it the same way.
+// Filled by (*Prog).indexDeferred for the program being analysed.
+var (
+	deferMu    sync.Mutex
+	deferOwner = map[*ssa.Function]*ssa.Function{}
+	deferredBy = map[*ssa.Function][]*ssa.Function{}
+)
+
+// WithAnon returns fn and all functions nested in it (closures, and named functions that only fn defers), recursively.
 func WithAnon(fn *ssa.Function) []*ssa.Function {
+	return withAnonD(fn, 0)
+}
+
+func withAnonD(fn *ssa.Function, d int) []*ssa.Function {
 	out := []*ssa.Function{fn}
+	if d > 8 {
+		return out
+	}
 	for _, a := range fn.AnonFuncs {
-		out = append(out, WithAnon(a)...)
+		out = append(out, withAnonD(a, d+1)...)
+	}
+	deferMu.Lock()
+	ds := deferredBy[fn]
+	deferMu.Unlock()
+	for _, a := range ds {
+		out = append(out, withAnonD(a, d+1)...)
 	}
 	return out
 }
 
-// Outermost returns the top-level function enclosing fn.
+// Outermost returns the top-level function enclosing fn (through closures and deferred-only named functions).
 func Outermost(fn *ssa.Function) *ssa.Function {
-	for fn.Parent() != nil {
-		fn = fn.Parent()
+	for i := 0; i < 16; i++ {
+		if fn.Parent() != nil {
+			fn = fn.Parent()
+			continue
+		}
+		deferMu.Lock()
+		o := deferOwner[fn]
+		deferMu.Unlock()
+		if o == nil {
+			break
+		}
+		fn = o
 	}
 	return fn
+}
+
+// EnclosingFunc is the syntactic or deferred-only parent of fn (nil for a top-level function).
+func EnclosingFunc(fn *ssa.Function) *ssa.Function {
+	if fn.Parent() != nil {
+		return fn.Parent()
+	}
+	deferMu.Lock()
+	defer deferMu.Unlock()
+	return deferOwner[fn]
+}
+
+func (p *Prog) indexDeferred() {
+	type use struct {
+		n      int
+		defers []*ssa.Function
+	}
+	uses := map[*ssa.Function]*use{}
+	for _, fn := range p.Funcs {
+		AllInstrs(fn, func(in ssa.Instruction) {
+			for _, op := range in.Operands(nil) {
+				if *op == nil {
+					continue
+				}
+				g, ok := (*op).(*ssa.Function)
+				if !ok {
+					continue
+				}
+				u := uses[g]
+				if u == nil {
+					u = &use{}
+					uses[g] = u
+				}
+				u.n++
+				if d, ok := in.(*ssa.Defer); ok && !d.Call.IsInvoke() && d.Call.Value == ssa.Value(g) {
+					u.defers = append(u.defers, fn)
+				}
+			}
+		})
+	}
+	// bound-method wrappers and other synthetic functions referencing g make it address-taken
+	inFuncs := map[*ssa.Function]bool{}
+	for _, fn := range p.Funcs {
+		inFuncs[fn] = true
+	}
+	for fn := range ssautilAll(p) {
+		if fn.Synthetic == "" || fn.Blocks == nil || inFuncs[fn] {
+			continue
+		}
+		AllInstrs(fn, func(in ssa.Instruction) {
+			for _, op := range in.Operands(nil) {
+				if *op == nil {
+					continue
+				}
+				if g, ok := (*op).(*ssa.Function); ok {
+					if u := uses[g]; u != nil {
+						u.n += 100
+					}
+				}
+			}
+		})
+	}
+	deferMu.Lock()
+	defer deferMu.Unlock()
+	for _, g := range p.Funcs {
+		u := uses[g]
+		if u == nil || u.n != 1 || len(u.defers) != 1 || g.Parent() != nil || u.defers[0] == g {
+			continue
+		}
+		if n := g.Name(); n == "" || ast.IsExported(n) {
+			continue
+		}
+		deferOwner[g] = u.defers[0]
+		deferredBy[u.defers[0]] = append(deferredBy[u.defers[0]], g)
+	}
 }
 
 // ---------- conditions ----------
